@@ -156,32 +156,34 @@ func (a sortableNodeArray) compare(lhs *CandidateNode, rhs *CandidateNode, dateT
 		}
 
 		return 1
-	} else if lhsTag == "!!int" && rhsTag == "!!int" {
-		_, lhsNum, err := parseInt64(lhs.Value)
-		if err != nil {
-			panic(err)
-		}
-		_, rhsNum, err := parseInt64(rhs.Value)
-		if err != nil {
-			panic(err)
-		}
-		return int(lhsNum - rhsNum)
-	} else if (lhsTag == "!!int" || lhsTag == "!!float") && (rhsTag == "!!int" || rhsTag == "!!float") {
-		lhsNum, err := strconv.ParseFloat(lhs.Value, 64)
-		if err != nil {
-			panic(err)
-		}
-		rhsNum, err := strconv.ParseFloat(rhs.Value, 64)
-		if err != nil {
-			panic(err)
-		}
-		if lhsNum == rhsNum {
-			return 0
-		} else if lhsNum < rhsNum {
-			return -1
-		}
+	}
 
-		return 1
+	if lhsTag == "!!int" && rhsTag == "!!int" {
+		_, lhsNum, errLhs := parseInt64(lhs.Value)
+		_, rhsNum, errRhs := parseInt64(rhs.Value)
+		if errLhs == nil && errRhs == nil {
+			if lhsNum == rhsNum {
+				return 0
+			} else if lhsNum < rhsNum {
+				return -1
+			}
+			return 1
+		}
+		// not representable as int64, try comparing as floats
+	}
+
+	if (lhsTag == "!!int" || lhsTag == "!!float") && (rhsTag == "!!int" || rhsTag == "!!float") {
+		lhsNum, errLhs := strconv.ParseFloat(lhs.Value, 64)
+		rhsNum, errRhs := strconv.ParseFloat(rhs.Value, 64)
+		if errLhs == nil && errRhs == nil {
+			if lhsNum == rhsNum {
+				return 0
+			} else if lhsNum < rhsNum {
+				return -1
+			}
+			return 1
+		}
+		// not parseable as numbers, sort by string instead
 	}
 
 	return strings.Compare(lhs.Value, rhs.Value)
